@@ -35,8 +35,8 @@ Definition QO : ops Q := {|
 Section LL2CR.
   Context {T : Type} (OP : ops T).
 
-  (* the C literal 1e30 as a double *)
-  Definition big30 : T := lit OP 7105427357601002 47.
+  (* the C literal 1e30 as a double (= 7105427357601002 * 2^47), written as the translator writes it *)
+  Definition big30 : T := lit OP 1000000000000000019884624838656 0.
 
   Record cr_params := mk_crp { cp_cw : T; cp_ch : T; cp_ox : T; cp_oy : T; cp_w : Z; cp_h : Z }.
 
@@ -216,7 +216,41 @@ Section ACC.
     dask_cell_tree mwm smin rounding
       (map (map (fun ic => (fst ic, map (sub_pixel y0 x0 nr nc) (snd ic)))) groups)
       (fst c - y0, snd c - x0).
+  (* ------------------------------------------------------------------ the resampler object: cache, persist, histories *)
+  (* DaskEWAResampler.precompute fills self.cache once per object (`if self.cache: return None`).  The cache holds the
+     ll2cr blocks the fornav tasks are generated from: with persist=False every input chunk (dropped ones as
+     placeholders), with persist=True only the chunks whose ll2cr result is not a placeholder
+     (_fill_block_cache_with_ll2cr_results).  [dr] = per input chunk, did ll2cr count no pixel near the grid. *)
+  Fixpoint select {A} (mask : list bool) (l : list A) : list A :=
+    match mask, l with
+    | m :: mask', x :: l' => if m then x :: select mask' l' else select mask' l'
+    | _, _ => []
+    end.
+  Definition precompute (dr : list bool) (persist : bool) (cache : option (list bool)) : option (list bool) :=
+    match cache with
+    | Some m => Some m
+    | None => Some (if persist then map negb dr else map (fun _ => true) dr)
+    end.
+  (* one resample() call = precompute(persist) then compute(data): (persist flag, the input chunks of this data) *)
+  Definition resample_call (dr : list bool) (mwm : bool) (smin rounding : T) (c : cell)
+             (cache : option (list bool)) (call : bool * list in_chunk) : option (list bool) * option T :=
+    let cache' := precompute dr (fst call) cache in
+    (cache', match cache' with
+             | Some m => dask_cell mwm smin rounding (select m (snd call)) c
+             | None => None end).
+  Fixpoint run_history (dr : list bool) (mwm : bool) (smin rounding : T) (c : cell)
+           (cache : option (list bool)) (calls : list (bool * list in_chunk)) : list (option T) :=
+    match calls with
+    | [] => []
+    | call :: rest =>
+        let '(cache', out) := resample_call dr mwm smin rounding c cache call in
+        out :: run_history dr mwm smin rounding c cache' rest
+    end.
 End ACC.
+
+(* DaskEWAResampler._new_chunks: input chunks are made scan aligned,
+   chunk_rows = max(floor(auto_rows / rows_per_scan), 1) * rows_per_scan *)
+Definition scan_aligned_rows (auto_rows rps : Z) : Z := Z.max (auto_rows / rps) 1 * rps.
 
 (* ------------------------------------------------------------------ output chunk layout *)
 (* _generate_fornav_dask_tasks: y_start/x_start are running sums of the chunk sizes; blocks in row-major order *)
